@@ -181,44 +181,50 @@ structure Hdr where
   natt : Nat
   deriving Repr
 
+/-- `dash = ep.find('-')`; `if dash > 0 and ep[0:dash].isdigit(): …` — the attachment count.
+    (`pre` is `ep[0:dash]` when a dash exists.) -/
+def scanAtt (cls : Char → DC) (ep : Str) : Except Err (Nat × Str) :=
+  let pre := ep.takeWhile (· != '-')
+  let hasDash := pre.length < ep.length
+  if hasDash && !pre.isEmpty && allDigits cls pre then
+    if pre.length > 10 then .error .valueError
+    else do
+      let n ← pyInt cls pre
+      pure (n, ep.drop (pre.length + 1))
+  else pure (0, ep)
+
+/-- `if ep and ep[0:1] == '/': …` — the namespace up to the first `,` (or the end), without the
+    query string. -/
+def scanNs (ep : Str) : Option Str × Str :=
+  match ep with
+  | '/' :: _ =>
+    let raw := ep.takeWhile (· != ',')
+    let ep' := if raw.length < ep.length then ep.drop (raw.length + 1) else []
+    (some (raw.takeWhile (· != '?')), ep')
+  | _ => (none, ep)
+
+/-- `if ep and ep[0].isdigit(): …` — the id: at most 100 digits, a 101st is an error. -/
+def scanId (cls : Char → DC) (ep : Str) : Except Err (Option Nat × Str) :=
+  match ep with
+  | c :: _ =>
+    if (cls c).isDigit then
+      let run := ep.takeWhile (fun c => (cls c).isDigit)
+      let i := min run.length 100
+      do
+        let v ← pyInt cls (ep.take i)
+        let ep' := ep.drop i
+        match ep' with
+        | d :: _ => if (cls d).isDigit then .error .valueError else pure (some v, ep')
+        | [] => pure (some v, ep')
+    else pure (none, ep)
+  | [] => pure (none, ep)
+
 /-- The header scanner of `Packet.decode` (everything before `json.loads`). -/
 def decodeHdr (cls : Char → DC) (s : Str) : Except Err Hdr := do
   let t ← pyInt cls (s.take 1)
-  let ep := s.drop 1
-  -- attachments
-  let pre := ep.takeWhile (· != '-')
-  let hasDash := pre.length < ep.length
-  let (natt, ep) ← (
-    if hasDash && !pre.isEmpty && allDigits cls pre then
-      if pre.length > 10 then (.error .valueError : Except Err (Nat × Str))
-      else do
-        let n ← pyInt cls pre
-        pure (n, ep.drop (pre.length + 1))
-    else pure (0, ep))
-  -- namespace
-  let (nsp, ep) : Option Str × Str :=
-    match ep with
-    | '/' :: _ =>
-      let raw := ep.takeWhile (· != ',')
-      let ep' := if raw.length < ep.length then ep.drop (raw.length + 1) else []
-      (some (raw.takeWhile (· != '?')), ep')
-    | _ => (none, ep)
-  -- id
-  let (id, ep) ← (
-    match ep with
-    | c :: _ =>
-      if (cls c).isDigit then
-        let run := ep.takeWhile (fun c => (cls c).isDigit)
-        let i := min run.length 100
-        do
-          let v ← pyInt cls (ep.take i)
-          let ep' := ep.drop i
-          match ep' with
-          | d :: _ => if (cls d).isDigit then (.error .valueError : Except Err (Option Nat × Str))
-                      else pure (some v, ep')
-          | [] => pure (some v, ep')
-      else pure (none, ep)
-    | [] => pure (none, ep))
+  let (natt, ep) ← scanAtt cls (s.drop 1)
+  let (nsp, ep) := scanNs ep
+  let (id, ep) ← scanId cls ep
   pure ⟨t, nsp, id, ep, natt⟩
 
 /-- `Packet(encoded_packet=text)` for a non-empty `str`: header, then `json.loads` of the rest. -/
